@@ -14,7 +14,16 @@
 //     masked client frames, masked server frame fails the connection, 101
 //     response cut at every offset, malformed status lines.
 // (c) nng_http_server + handler <-> raw client: GET / POST cut at every offset,
-//     request line mutations.
+//     two pipelined requests cut at every offset, request line mutations.
+// (d) nng_http_client + nng_http_transact <-> raw server: Content-Length and
+//     chunked responses cut at every offset, malformed status lines and chunk
+//     sizes, strict check of the emitted request.
+//
+// Cases are batched (several per execution, each on a fresh TCP connection);
+// a failing case does not stop its batch, the first failure is reported at
+// the end of the execution.  Families that fail on the current tree live in
+// their own scenario with a signature detail (":control-in-limit",
+// ":pipelined", ":empty-method") so that they cannot mask anything else.
 #define _GNU_SOURCE
 #include "core/nng_impl.h"
 
@@ -1169,7 +1178,11 @@ typedef struct refout {
 	int    nping, ping[MAXF];
 } refout;
 
-#define STRICT_PREFIX 1 // 1: messages completed before a violation must be delivered
+// 1: complete valid messages that precede a rule violation on the same
+// connection must still be delivered (signature ...:before-violation); holds
+// on every enumerated case under the default schedule.  0: only "no wrong
+// message, nothing from the violating frame on".
+#define STRICT_PREFIX 1
 
 static void
 ref_accept(const wcase *w, size_t maxframe, size_t recvmax, int lib_is_server,
